@@ -3,8 +3,8 @@
 From ZV.Common Require Import Base Run.
 From Coq Require Import Sorting.Sorted Sorting.Permutation.
 From ZV.C11 Require Import Model ProofsSpec ProofsScatter ProofsLsd ProofsMerge ProofsSet ProofsInsertion ProofsExtSort ProofsExamples.
-From ZV.C11 Require Import ModelMsd ModelAdv ModelPar ModelSkip ModelMultipass ModelFunnel ModelCases.
-From ZV.C11 Require Import ProofsMsd ProofsScatterK ProofsAdv ProofsPar ProofsSkip ProofsSetVar ProofsMultipass ProofsExamplesX.
+From ZV.C11 Require Import ModelMsd ModelAdv ModelPar ModelSkip ModelMultipass ModelFunnel ModelKv ModelCases.
+From ZV.C11 Require Import ProofsMsd ProofsScatterK ProofsAdv ProofsPar ProofsSkip ProofsSetVar ProofsMultipass ProofsKv ProofsExamplesX.
 Open Scope N_scope.
 
 (* the checker used for the S-only cells decides exactly "sorted permutation of the input" *)
@@ -421,3 +421,38 @@ Proof. exact co_sort_sorts_proof. Qed.
 Check co_sort_sorts :
   forall st l2 line data, Sorted N.le (co_sort st l2 line data) /\ Permutation data (co_sort st l2 line data).
 Print Assumptions co_sort_sorts.
+
+(* KeyValueRadixSort::sort_by_key (keys sorted by sort_u64, values fetched through per-key position queues): no error,
+   sorted by key, every (key, value) pair kept, pairs with equal keys in their input order *)
+Theorem kv_sort_keeps_pairs :
+  forall threads data, (0 < threads)%nat -> Forall (fun p => fst p < 2 ^ 64) data ->
+    exists out, kv_sort threads data = Some out /\
+      Sorted N.le (map fst out) /\ Permutation data out /\ forall k, with_key k out = with_key k data.
+Proof. exact kv_sort_pairs_proof. Qed.
+Check kv_sort_keeps_pairs :
+  forall threads data, (0 < threads)%nat -> Forall (fun p => fst p < 2 ^ 64) data ->
+    exists out, kv_sort threads data = Some out /\
+      Sorted N.le (map fst out) /\ Permutation data out /\ forall k, with_key k out = with_key k data.
+Print Assumptions kv_sort_keeps_pairs.
+
+(* SimdOperations::merge_multiple_sorted: binary merge tree, an odd array carried over to the next round *)
+Theorem merge_tree_merges :
+  forall ls, Forall (Sorted N.le) ls -> Sorted N.le (merge_tree ls) /\ Permutation (concat ls) (merge_tree ls).
+Proof. exact merge_tree_merges_proof. Qed.
+Check merge_tree_merges :
+  forall ls, Forall (Sorted N.le) ls -> Sorted N.le (merge_tree ls) /\ Permutation (concat ls) (merge_tree ls).
+Print Assumptions merge_tree_merges.
+
+(* Vec::external_sort_with_config: in-memory sort when the data fits the buffer, else replacement selection *)
+Theorem vec_external_sort_sorts :
+  forall (std_sort : list N -> list N) elem_size buf data,
+    (forall l, Sorted N.le (std_sort l) /\ Permutation l (std_sort l)) ->
+    Sorted N.le (vec_external_sort std_sort elem_size buf data) /\
+    Permutation data (vec_external_sort std_sort elem_size buf data).
+Proof. exact vec_external_sort_sorts_proof. Qed.
+Check vec_external_sort_sorts :
+  forall (std_sort : list N -> list N) elem_size buf data,
+    (forall l, Sorted N.le (std_sort l) /\ Permutation l (std_sort l)) ->
+    Sorted N.le (vec_external_sort std_sort elem_size buf data) /\
+    Permutation data (vec_external_sort std_sort elem_size buf data).
+Print Assumptions vec_external_sort_sorts.
